@@ -32,7 +32,7 @@ REQUIRED_BUCKETS = {"quick": ["grid:linear", "grid:log", "n:1", "n:2..9", "n:10.
                               "acceptance:open", "acceptance:cut", "via:Gxi", "via:DirectModel", "wavelength:short",
                               "acceptance:on-data-tof", "acceptance:on-data-mono", "order:permuted",
                               "via:DirectModel:data-edited-in-place", "grid:log-full-range",
-                              "via:Gxi:long-log-grid", "linear:curves-ending-at-different-q"]}
+                              "via:Gxi:long-log-grid", "linear:curves-ending-at-different-q", "via:Gxi:threads"]}
 REQUIRED_BUCKETS["thorough"] = REQUIRED_BUCKETS["quick"]
 
 
@@ -40,6 +40,7 @@ def gen_cases(tier, seed):
     n = 80 if tier == "quick" else 2000
     cases = [{"id": "t/%04d" % k, "k": k, "seed": seed, "kind": "transform", "group": "g%d" % (k % 64)} for k in range(n)]
     cases.append({"id": "direct", "kind": "direct", "seed": seed, "group": "direct", "cost": 8})
+    cases.append({"id": "threads", "kind": "threads", "seed": seed, "group": "threads", "cost": 8})
     return cases
 
 
@@ -312,7 +313,42 @@ def run_direct(case, rec):
             rec.bucket("acceptance:on-data-tof" if tof else "acceptance:on-data-mono")
 
 
+def run_threads(case, rec):
+    """The helper called from several threads at once (a parameter scan mapped over a thread pool) with the same model and
+    the same spin-echo lengths: every call returns the Hankel pair of its own parameters."""
+    from concurrent.futures import ThreadPoolExecutor
+    from sasmodels import direct_model
+    rng = core.rng_for(case["seed"], PROP, "threads")
+    xi = np.logspace(2.0, 4.0, 30)
+    sets = []
+    for _ in range(48):
+        rg = float(math.sqrt(1.5)/10**rng.uniform(-3.6, -2.6))
+        sets.append({"rg": rg, "scale": float(rng.uniform(0.5, 2.0))})
+    direct_model.Gxi("guinier", xi, background=0.0, **sets[0])          # (library built before the threads start)
+
+    def one(p_):
+        return np.asarray(direct_model.Gxi("guinier", xi, background=0.0, **p_), float)
+    bad = []
+    rounds = 0
+    for rounds in range(1, 4):
+        with ThreadPoolExecutor(max_workers=8) as pool:
+            outs = list(pool.map(one, sets))
+        for p_, g_ in zip(sets, outs):
+            s_ = math.sqrt(2.0/3.0)*p_["rg"]
+            ex_ = exact_pair(xi, [p_["scale"]], [s_])
+            if not np.all(np.abs(g_ - ex_) <= 1e-3*float(np.max(np.abs(ex_)))):
+                bad.append({"pars": p_, "got": g_[:4], "exact": ex_[:4]})
+        if bad:
+            break
+    rec.check("gaussian_hankel_pair", not bad,
+              {"via": "Gxi from 8 threads, same model and grid, 48 parameter sets", "rounds": rounds, "wrong": len(bad), "first": bad[:2]})
+    rec.bucket("via:Gxi:threads")
+    rec.set_shape(("threads",), True)
+
+
 def run_case(case, rec):
+    if case.get("kind") == "threads":
+        return run_threads(case, rec)
     if case["kind"] == "direct":
         run_direct(case, rec)
     else:
